@@ -20,7 +20,7 @@ partial def xdeclOfJson (j : Json) : Except String XDecl := do
       let p ← kv.getArr?
       pure ((← p[0]!.getStr?), (← valOfJson p[1]!))
     pure (.enumVal (← (← j.getObjVal? "cls").getStr?) ms (← optBool j "mixin" false))
-  | "temporal" => pure (.temporal (← (← j.getObjVal? "kind").getStr?) (← optBool j "ints" false))
+  | "temporal" => pure (.temporal (← (← j.getObjVal? "ty").getStr?) (← (← j.getObjVal? "fmt").getStr?) (← optBool j "ints" false))
   | "opt" => pure (.opt (← xdeclOfJson (← j.getObjVal? "x")))
   | "seqOf" => pure (.seqOf (← seqKind j) (← xdeclOfJson (← j.getObjVal? "x")))
   | "setOf" => pure (.setOf (← xdeclOfJson (← j.getObjVal? "x")))
@@ -44,21 +44,22 @@ def xoraclesOfJson (j : Json) : Except String XOracles := do
     | some x => (← x.getArr?).toList.mapM fun t => do
       let a ← t.getArr?
       pure ((← qOfJson a[0]!), (← qOfJson a[1]!))
+  -- rows [ty, fmt, string, tag | null] and [ty, fmt, tag, string]
   let ps : List (String × String × Option String) ← match optField j "parse" with
     | none => pure []
     | some x => (← x.getArr?).toList.mapM fun t => do
       let a ← t.getArr?
-      let r ← match a[2]! with | .null => pure none | y => do pure (some (← y.getStr?))
-      pure ((← a[0]!.getStr?), (← a[1]!.getStr?), r)
+      let r ← match a[3]! with | .null => pure none | y => do pure (some (← y.getStr?))
+      pure ((← a[0]!.getStr?) ++ "/" ++ (← a[1]!.getStr?), (← a[2]!.getStr?), r)
   let fs : List (String × String × String) ← match optField j "format" with
     | none => pure []
     | some x => (← x.getArr?).toList.mapM fun t => do
       let a ← t.getArr?
-      pure ((← a[0]!.getStr?), (← a[1]!.getStr?), (← a[2]!.getStr?))
+      pure ((← a[0]!.getStr?) ++ "/" ++ (← a[1]!.getStr?), (← a[2]!.getStr?), (← a[3]!.getStr?))
   pure { base,
          toFloat := fun q => match tf.find? (fun t => decide (t.1 = q)) with | some t => t.2 | none => q,
-         parse := fun k s => match ps.find? (fun t => t.1 == k && t.2.1 == s) with | some t => t.2.2 | none => none,
-         format := fun k t => match fs.find? (fun r => r.1 == k && r.2.1 == t) with | some r => r.2.2 | none => "?" }
+         parse := fun ty fmt s => match ps.find? (fun t => t.1 == ty ++ "/" ++ fmt && t.2.1 == s) with | some t => t.2.2 | none => none,
+         format := fun ty fmt t => match fs.find? (fun r => r.1 == ty ++ "/" ++ fmt && r.2.1 == t) with | some r => r.2.2 | none => "?" }
 
 def run (j : Json) : Except String Json := do
   let XO ← xoraclesOfJson j
